@@ -707,7 +707,19 @@ public:
     template< typename ...Images >
     void apply( any_image< Images... >& images )
     {
-        detail::bmp_type_format_checker format_checker( this->_info._bits_per_pixel );
+        // pick the image type with the rule is_allowed() applies afterwards: uncompressed 1/4/8 bit images with the
+        // windows header are read as rgba8 (palette entries), every other depth below 32 bits as rgb8
+        bmp_bits_per_pixel::type checked_bpp = this->_info._bits_per_pixel;
+        if(  checked_bpp <= 8
+          && this->_info._header_size == bmp_header_size::_win32_info_size
+          && this->_info._compression != bmp_compression::_rle8
+          && this->_info._compression != bmp_compression::_rle4
+          )
+        {
+            checked_bpp = 32;
+        }
+
+        detail::bmp_type_format_checker format_checker( checked_bpp );
 
         if( !detail::construct_matched( images
                               , format_checker
